@@ -93,20 +93,16 @@ Theorem growth_irrelevant : forall grow1 grow2 junk1 junk2 initial1 initial2 ops
 Proof. exact growth_irrelevant_proof. Qed.
 Print Assumptions growth_irrelevant.
 
-(* (d) `/`, `mod`, `/mod` as coded are floor division and modulo (q*d + r = n, r has the sign of d) for in-range
-   cells, d <> 0, no INT_MIN / -1 trap, and |d| <= 2^(w-2) *)
-Theorem floor_div_mod_spec : forall w n d, 1 < w -> d <> 0 ->
-  - 2 ^ (w - 1) <= n < 2 ^ (w - 1) -> - 2 ^ (w - 1) <= d < 2 ^ (w - 1) -> Z.abs d <= 2 ^ (w - 2) -> div_traps w n d = false ->
+(* (d) `/`, `mod`, `/mod` (forth_floor_div / forth_floor_mod) are floor division and modulo for ALL in-range cells with
+   d <> 0: r = n mod d has the sign of d, q is n / d reduced to the cell width (it wraps only for INT_MIN / -1),
+   and q*d + r = n modulo 2^w — exactly, outside that one case *)
+Theorem floor_div_mod_spec : forall w n d, 0 < w -> d <> 0 ->
+  - 2 ^ (w - 1) <= n < 2 ^ (w - 1) -> - 2 ^ (w - 1) <= d < 2 ^ (w - 1) ->
   let q := forth_div w n d in let r := forth_mod w n d in
-  q * d + r = n /\ (0 <= r < d \/ d < r <= 0) /\ q = n / d /\ r = n mod d.
+  r = n mod d /\ q = wrap w (n / d) /\ (0 <= r < d \/ d < r <= 0) /\ wrap w (q * d + r) = n /\
+  (~ (n = - 2 ^ (w - 1) /\ d = -1) -> q = n / d /\ q * d + r = n).
 Proof. exact floor_div_mod_spec_proof. Qed.
 Print Assumptions floor_div_mod_spec.
-
-(* (d) REFUTED without the bound on |d|: `mod` as coded overflows in d + n % d *)
-Theorem floor_mod_refuted : exists w n d, w = 64 /\ d <> 0 /\ - 2 ^ (w - 1) <= n < 2 ^ (w - 1) /\ - 2 ^ (w - 1) <= d < 2 ^ (w - 1) /\
-  div_traps w n d = false /\ forth_mod w n d <> n mod d.
-Proof. exact floor_mod_refuted_proof. Qed.
-Print Assumptions floor_mod_refuted.
 
 (* (d) the arithmetic words deliver the exact integer result reduced to the cell width *)
 Theorem wraparound_spec : forall p e m a b s, 0 < p_w p -> m_stack m = b :: a :: s ->
@@ -117,7 +113,7 @@ Theorem wraparound_spec : forall p e m a b s, 0 < p_w p -> m_stack m = b :: a ::
   exec_builtin p e m CODE_NEGATE = continue (set_stack m (wrap w (- b) :: a :: s)) /\
   exec_builtin p e m CODE_ADD1 = continue (set_stack m (wrap w (b + 1) :: a :: s)) /\
   exec_builtin p e m CODE_SUB1 = continue (set_stack m (wrap w (b - 1) :: a :: s)) /\
-  exec_builtin p e m CODE_ABS = continue (set_stack m (wrap 32 (Z.abs (wrap 32 b)) :: a :: s)) /\
+  exec_builtin p e m CODE_ABS = continue (set_stack m (wrap w (Z.abs b) :: a :: s)) /\
   exec_builtin p e m CODE_LSHIFT = continue (set_stack m (wrap w (a * 2 ^ (b mod w)) :: s)) /\
   (forall z, - 2 ^ (w - 1) <= wrap w z < 2 ^ (w - 1) /\ (exists k, wrap w z = z + k * 2 ^ w) /\
              (- 2 ^ (w - 1) <= z < 2 ^ (w - 1) -> wrap w z = z)).
